@@ -4,7 +4,7 @@
 set -u
 prop="$1"; wt="$2"; sub="$3"; name="$4"
 export GOFLAGS=-mod=mod GOPROXY=off GOSUMDB=off GOTOOLCHAIN=local
-cd /verif; mkdir -p .work; exec 9>.work/repo.lock; flock 9
+cd /verif; mkdir -p .work; if [ "${IN_WORKTREE:-0}" = 1 ]; then exec 9>.work/seedcheck-wt.lock; else exec 9>.work/repo.lock; fi; flock 9
 src="$wt/$sub"
 [ -f "$src/patch.diff" ] && [ -f "$src/demo_test.go" ] || { echo "missing files in $src"; exit 2; }
 out="seeded/$name"; mkdir -p "$out"
@@ -27,13 +27,20 @@ without=fails; runtest >/tmp/seed-demo-without-$name.log 2>&1 && without=passes
 rm -f "$dest"; git checkout -q -- .
 echo "== build=$build_ok suite_with_patch=$suite demo_with_patch=$with demo_without_patch=$without pkgs=$pkgs"
 cd /verif
+if [ "${IN_WORKTREE:-0}" = 1 ]; then
+  # first-result measurement without touching /repo (another job holds it): the patched tree is the seed's own worktree
+  git -C "$wt" apply "$PWD/$out/patch.diff" || { echo "== patch does not apply in worktree"; exit 2; }
+  q=$(VERIF_REPO="$wt" timeout 1800 "${VCHECK_ROOT:-/verif}/vcheck" "$prop" quick 2>&1); qrc=$?
+  git -C "$wt" checkout -q -- .
+else
 git -C /repo diff --quiet || { echo "repo dirty"; exit 2; }
 git -C /repo apply "$PWD/$out/patch.diff" || { echo "== patch does not apply to /repo"; exit 2; }
 trap 'git -C /repo checkout -- . 2>/dev/null' EXIT
 q=$(timeout 1800 "${VCHECK_ROOT:-/verif}/vcheck" "$prop" quick 2>&1); qrc=$?
+git -C /repo checkout -- .; trap - EXIT
+fi
 qsig=$(echo "$q" | grep -m3 'signature:' | sed 's/^ *signature: //' | paste -sd';')
 echo "== quick rc=$qrc :: $qsig"
-git -C /repo checkout -- .; trap - EXIT
 python3 - "$out" "$prop" "$build_ok" "$suite" "$with" "$without" "$qrc" "$qsig" "$pkgs" "$dest" <<'PY'
 import json,sys,os
 out,prop,build,suite,w,wo,qrc,qsig,pkgs,dest=sys.argv[1:]
